@@ -409,4 +409,9 @@ def pool_map(fn, items, procs=None, chunksize=None):
         return []
     ctx = mp.get_context("fork")
     with ctx.Pool(min(procs, max(1, len(items)))) as p:
-        return p.map(fn, items, chunksize or max(1, len(items) // (procs * 8)))
+        # a worker that dies while unpickling its task makes Pool.map wait for ever: bound the wait (machinery failure, exit 2)
+        res = p.map_async(fn, items, chunksize or max(1, len(items) // (procs * 8)))
+        try:
+            return res.get(timeout=float(os.environ.get("VERIF_POOL_TIMEOUT", "14400")))
+        except mp.TimeoutError:
+            raise MachineryError(f"worker pool did not finish {getattr(fn, '__name__', fn)} over {len(items)} items in time")
